@@ -8,6 +8,7 @@
 #include "parsec/parsec_internal.h"
 #include "parsec/scheduling.h"
 #include "parsec/utils/debug.h"
+#include "parsec/mca/termdet/termdet.h"
 
 /**
  * A compound is a list of taskpool that need to be executed sequentially
@@ -52,6 +53,8 @@ parsec_compound_taskpool_startup( parsec_context_t *context,
 
     compound->ctx = context;
     compound->super.tdm.module->taskpool_set_runtime_actions(&compound->super, compound->nb_taskpools);
+    /* now that one action per composed taskpool is pending the compound can be declared ready */
+    compound->super.tdm.module->taskpool_ready(&compound->super);
     PARSEC_DEBUG_VERBOSE(30, parsec_debug_output, "Compound taskpool %p starting with %d taskpools",
                          compound, compound->nb_taskpools);
     for( int i = 0; i < compound->nb_taskpools; i++ ) {
@@ -87,6 +90,11 @@ __parsec_compound_taskpool_constructor( parsec_compound_taskpool_t* compound )
     compound->completed_taskpools = 0;
     compound->nb_taskpools = 0;
     compound->super.startup_hook = parsec_compound_taskpool_startup;
+    /* Install the termination detector here: otherwise parsec_context_add_taskpool installs it
+     * and declares the compound ready before the startup hook has accounted for the composed
+     * taskpools, and the (still empty) compound is reported terminated at once. */
+    parsec_termdet_open_module(&compound->super, "local");
+    compound->super.tdm.module->monitor_taskpool(&compound->super, parsec_taskpool_termination_detected);
 }
 
 PARSEC_OBJ_CLASS_INSTANCE(parsec_compound_taskpool_t, parsec_taskpool_t,
